@@ -29,7 +29,7 @@ ASSUMPTIONS = [
 
 
 def budget(tier):
-    return 3000 if tier == 'quick' else 60000
+    return 8000 if tier == 'quick' else 80000
 
 
 @st.composite
